@@ -30,6 +30,50 @@ use undermoon::proxy::slowlog::SlowRequestLogger;
 
 pub type Handler = SharedForwardHandler<SimPort, SimPort>;
 
+thread_local! {
+    /// (wake-up of the scenario guard, message budget) picked up by every SimNet created on this thread
+    static WATCH: std::cell::RefCell<Option<(Arc<tokio::sync::Notify>, u64)>> = std::cell::RefCell::new(None);
+}
+
+/// The scenario exchanged more messages than its logical-step budget allows.
+#[derive(Debug)]
+pub struct Runaway;
+
+/// Runs one scenario under a logical-step budget: every SimNet created inside counts the messages
+/// that cross it; when the budget is exhausted no further message is delivered and the scenario
+/// future is dropped. A budget is a number of messages, never a wall-clock time.
+pub async fn guarded<F: std::future::Future>(budget: u64, fut: F) -> Result<F::Output, Runaway> {
+    let n = Arc::new(tokio::sync::Notify::new());
+    WATCH.with(|w| *w.borrow_mut() = Some((n.clone(), budget)));
+    PASSED_ON_THREAD.with(|c| c.set(0));
+    let r = tokio::select! {
+        biased;
+        v = fut => Ok(v),
+        _ = n.notified() => Err(Runaway),
+    };
+    WATCH.with(|w| *w.borrow_mut() = None);
+    r
+}
+
+thread_local! {
+    static PASSED_ON_THREAD: std::cell::Cell<u64> = std::cell::Cell::new(0);
+}
+
+/// `guarded` plus reporting: a run-away scenario is the violation `<property>:message-loop`; the
+/// largest number of messages one scenario needed is kept as a counter (it documents how far
+/// the budget is from what the unchanged tree does).
+pub async fn guarded_scenario<F: std::future::Future<Output = ()>>(budget: u64, property: &str, sub_seed: u64, fut: F) -> Option<serde_json::Value> {
+    let r = guarded(budget, fut).await;
+    match r {
+        Ok(()) => None,
+        Err(Runaway) => Some(serde_json::json!({"signature": format!("{}:message-loop", property), "sub_seed": sub_seed, "budget": budget})),
+    }
+}
+
+pub fn messages_on_this_thread() -> u64 {
+    PASSED_ON_THREAD.with(|c| c.get())
+}
+
 #[derive(Clone, Debug)]
 pub struct NetMsg {
     pub seq: u64,
@@ -73,6 +117,12 @@ pub struct SimInner {
     gates: parking_lot::Mutex<HashMap<String, Arc<tokio::sync::Semaphore>>>,
     pub log_enabled: AtomicBool,
     log: parking_lot::Mutex<Vec<(NetMsg, String)>>,
+    /// messages that crossed the network so far / logical-step budget of the scenario: beyond it
+    /// every message fails, so that a forwarding or redirection loop ends and can be reported
+    pub passed: AtomicU64,
+    pub msg_budget: AtomicU64,
+    pub runaway: AtomicBool,
+    watch: Option<Arc<tokio::sync::Notify>>,
     /// per proxy: (seq before the read, seq after the read, epoch reported right after a delivered
     /// UMCTL SETCLUSTER); epoch u64::MAX marks a restart
     pub epoch_trace: parking_lot::Mutex<HashMap<String, Vec<(u64, u64, u64)>>>,
@@ -131,6 +181,10 @@ impl SimNet {
                 gates: Default::default(),
                 log_enabled: AtomicBool::new(false),
                 log: Default::default(),
+                passed: AtomicU64::new(0),
+                msg_budget: AtomicU64::new(WATCH.with(|w| w.borrow().as_ref().map(|x| x.1).unwrap_or(u64::MAX))),
+                runaway: AtomicBool::new(false),
+                watch: WATCH.with(|w| w.borrow().as_ref().map(|x| x.0.clone())),
                 epoch_trace: Default::default(),
                 trace_epochs: AtomicBool::new(false),
             }),
@@ -224,6 +278,17 @@ impl SimNet {
 
     /// Returns false when the message must be dropped.
     async fn pass(&self, origin: &str, dst: &str, kind: &'static str, phase: &'static str, argv: &[Vec<u8>]) -> Action {
+        let n = self.inner.passed.fetch_add(1, Ordering::Relaxed);
+        PASSED_ON_THREAD.with(|c| c.set(c.get() + 1));
+        if n >= self.inner.msg_budget.load(Ordering::Relaxed) {
+            // logical-step budget exhausted: a forwarding / redirection / retry loop. Wake the
+            // scenario guard and never deliver this message, so that the loop stops.
+            self.inner.runaway.store(true, Ordering::SeqCst);
+            if let Some(w) = self.inner.watch.as_ref() {
+                w.notify_one();
+            }
+            std::future::pending::<()>().await;
+        }
         let policy = self.inner.policy.read().clone();
         let logging = self.inner.log_enabled.load(Ordering::Relaxed);
         if policy.is_none() && !logging {
